@@ -242,7 +242,7 @@ def check (params lines : List String) : CaseResult := Id.run do
       if expected != outcome && alt != outcome then
         r := { r with diffs := s!"enforced replay of the Lean witness schedule ({mode}): model {showOutcome expected} implementation {showOutcome outcome}" :: r.diffs }
     let ordered := mode == "nw" || mode == "wit"
-    let (found, exhausted, n) := search c outcome ordered 300000 [(s0, todo)] {} 0
+    let (found, exhausted, n) := search c outcome ordered 40000 [(s0, todo)] {} 0
     if found then pure ()
     else if exhausted then
       r := { r with diffs := s!"outcome {showOutcome outcome} of deliveries {todo} ({mode}) is not the outcome of any schedule of the model ({n} states)" :: r.diffs }
